@@ -7,7 +7,7 @@ import shutil
 import vlib
 from vlib import sh, log
 
-COMPOSED = ("C", "CS", "M", "B", "P")   # control flows that decide by themselves (raw D/R/F are the bare procedures)
+COMPOSED = ("C", "CS", "M", "B", "P", "W")   # control flows that decide by themselves (raw D/R/F are the bare procedures)
 
 
 def parse_info(s):
@@ -131,7 +131,7 @@ def oracle_sequence(sid, lines, outs):
             stats["panics"] += 1
         before = dict(stored)
         per_part = {}
-        for w in atts:
+        for wi, w in enumerate(atts):
             pid = w["pid"]
             per_part[pid] = per_part.get(pid, 0) + 1
             b = before[pid]
@@ -157,10 +157,17 @@ def oracle_sequence(sid, lines, outs):
                 fail(cid, "one-at-a-time: more than one node added in one write", dict(kind=kind, before=b, written=w))
             if added:
                 stats["adds"] += 1
-                if kind in COMPOSED:
-                    uns = [n for n in bisr if not a(n)[1] or a(n)[0] == "x"]
+                # W: the first update is the concurrent bare add that makes the caller's snapshot stale; the add under
+                # test is what addNodeToNamespaceAndWaitReady does afterwards
+                if kind in COMPOSED and not (kind == "W" and wi == 0 and added == [int(f[1])]):
+                    # "full ready": every current replica answers, reports synced, and lists every current replica
+                    # (node, raft id) as a member
+                    idm = dict(b["ids"])
+                    want = ["%d:%d" % (n, idm.get(n, 0)) for n in bisr]
+                    uns = [n for n in bisr if not a(n)[1] or a(n)[0] == "x"
+                           or any(x not in (a(n)[0].split(",") if a(n)[0] not in ("-", "x") else []) for x in want)]
                     if uns:
-                        fail(cid, "add-when-unsynced: a node was added while replicas %s did not answer synced" % uns,
+                        fail(cid, "add-when-unsynced: a node was added while replicas %s did not answer synced / full ready" % uns,
                              dict(kind=kind, before=b, written=w, answers={"%d/%d" % k: v for k, v in ans.items()}))
                 if b["rm"]:
                     fail(cid, "add-while-removing: a node was added while a removal is pending", dict(kind=kind, before=b, written=w))
@@ -420,7 +427,8 @@ def run(ctx):
              "(under/over-replicated, optional pending removal, id gaps), events N (registered node set), A (HTTP answers of data nodes), "
              "T (clock), C / CS (doCheckNamespaces over all partitions / one partition), M/D/R/F (bare handleNamespaceMigrate/addNamespaceToNode/"
              "removeNamespaceFromNode/removeNamespaceFromRemovings), X (register update failures), O (auto balance), "
-             "B (rebalanceNamespace), K/P (MarkNodeAsRemoving/processRemovingNodes), the learner placement driver on the same register: "
+             "B (rebalanceNamespace), K/P (MarkNodeAsRemoving/processRemovingNodes), W (addNodeToNamespaceAndWaitReady called with a "
+             "snapshot made stale by a concurrent add), the learner placement driver on the same register: "
              "LC (doCheckNamespacesForLearner), LS (start/stop key), LA/LL/LR/LX (bare addNsLearnerToNode/updateNsLearnerLeader/"
              "removeNsLearnerFromNode/removeNsAllLearners), learner nodes joining/leaving in N; G (ChangeNamespaceMetaParam: replication "
              "factor 0..6), U (SetClusterUpgradeState), Y (register health: healthy / etcd unreachable with the cache serving / "
